@@ -458,6 +458,10 @@ class SimpleFormula(
     def __len__(self) -> int:
         return len(self.__terms)
 
+    def __copy__(self) -> SimpleFormula:
+        # A copy is an independent sequence: it must not share the term list.
+        return self.__class__(self.__terms, _ordering=self.ordering)
+
     def insert(self, index: int, value: Term) -> None:
         self.__validate_terms([value])
         self.__terms.insert(index, value)
